@@ -442,6 +442,15 @@ where
 
     /// Start listening to a given frequency and [`Bandwidth`]
     pub async fn listen(&mut self, frequency_in_hz: u32, bandwidth: Bandwidth) -> Result<(), RadioError> {
+        // listen() may be called while a reception is still running on the chip: whatever
+        // step fails, chip and driver go back to standby instead of staying in that reception
+        if let Err(err) = self.start_listen(frequency_in_hz, bandwidth).await {
+            return Err(self.abort_to_standby(err).await);
+        }
+        Ok(())
+    }
+
+    async fn start_listen(&mut self, frequency_in_hz: u32, bandwidth: Bandwidth) -> Result<(), RadioError> {
         self.prepare_modem(frequency_in_hz).await?;
 
         self.radio_kind.set_channel(frequency_in_hz).await?;
@@ -456,11 +465,7 @@ where
         )?;
         self.radio_kind.set_modulation_params(&modulation_params).await?;
         self.radio_mode = RadioMode::Listen;
-        if let Err(err) = self.radio_kind.do_rx(RxMode::Continuous).await {
-            return Err(self.abort_to_standby(err).await);
-        }
-
-        Ok(())
+        self.radio_kind.do_rx(RxMode::Continuous).await
     }
 
     /// Get the current RSSI
